@@ -29,7 +29,12 @@ from gen_common import REPO, OUT, ShapeError
 LEAN_TY = {"int": "Int", "dec": "Rat", "dec0": "Rat", "bool": "Bool", "str": "String", "tok": "String", "xdec": "Py.XDec",
            "frame": "String → String → M Rat",
            # a datetime / timedelta on the whole-second grid: seconds since an epoch / seconds (the trigger classes; sub-second parts are outside)
-           "time": "Int", "delta": "Int", "trange": "Int × Int", "unit": "Unit"}
+           "time": "Int", "delta": "Int", "trange": "Int × Int", "unit": "Unit",
+           # float mode: a Python float is a value of the abstract number type α of the generated file (see Demeter/PyFloat.lean)
+           "flt": "α"}
+
+RECORDS = {}      # record class name -> [(field, type)]: filled by Unit.check_records (NamedTuples and dataclasses of the source, as tuples of their fields)
+
 
 
 def lean_ty(t):
@@ -41,7 +46,32 @@ def lean_ty(t):
         return f"Option ({lean_ty(t[1])})"
     if isinstance(t, tuple) and t[0] == "list":
         return f"List ({lean_ty(t[1])})"
+    if isinstance(t, tuple) and t[0] == "rec":
+        return lean_ty(("tuple", [ft for _, ft in RECORDS[t[1]]]))
     return LEAN_TY[t]
+
+
+def placeholder(t):
+    """a value of the type, for a variable that is declared before an `if` whose every continuing branch assigns it (no path reads the placeholder)"""
+    if isinstance(t, tuple) and t[0] == "tuple":
+        return "(" + ", ".join(placeholder(x) for x in t[1]) + ")"
+    if isinstance(t, tuple) and t[0] == "rec":
+        return placeholder(("tuple", [ft for _, ft in RECORDS[t[1]]])) if len(RECORDS[t[1]]) > 1 else placeholder(RECORDS[t[1]][0][1])
+    if isinstance(t, tuple) and t[0] == "opt":
+        return "none"
+    if isinstance(t, tuple) and t[0] in ("list", "dict"):
+        return "[]"
+    return {"int": "(0 : Int)", "dec": "(0 : Rat)", "dec0": "(0 : Rat)", "flt": "(0 : α)", "bool": "false", "str": '""', "tok": '""',
+            "time": "(0 : Int)", "delta": "(0 : Int)", "xdec": "(Py.XDec.fin 0)", "trange": "((0 : Int), (0 : Int))"}[t]
+
+
+def rec_proj(term, fields, name):
+    """projection of a field out of the right-nested tuple of a record's fields"""
+    names = [f for f, _ in fields]
+    i, n = names.index(name), len(names)
+    if n == 1:
+        return term
+    return f"{term}" + ".2" * i + ("" if i == n - 1 else ".1")
 
 
 def fail(node, what):
@@ -107,6 +137,11 @@ class Fn:
         self.uses_cx = False
         self.uses_pow = False
         self.uses_fuel = False
+        self.uses_o = False
+        self.hoist = {}            # (line, col) of an `if` -> [(name, type)] first assigned in every continuing branch: declared before it (N3)
+        self.hoisted = {}          # such names that are declared and not yet in scope as assigned variables
+        self.promote = set()       # float mode: variables that hold the int literal 0 at one point and a float at another: the float zero
+        self.probing = False
         self.used_reads = {}
         self.ret_types = []
         self.ret = None
@@ -135,6 +170,21 @@ class Fn:
                 return f"({m.group(1)} : Rat)"      # an int literal: the same number as a Rat literal
             return f"(({term} : Int) : Rat)"
         fail(node, f"a {ty} where a Decimal or int is needed")
+
+    def as_flt(self, term, ty, node):
+        """float mode: a float, or the int literal 0 (CPython converts an int operand of float arithmetic exactly; only the literal 0 is supported)"""
+        if ty == "flt":
+            return term
+        if ty == "int" and term == "(0 : Int)":
+            return "(0 : α)"
+        if ty == "int" and self.probing and re.fullmatch(r"[A-Za-z_]\w*", term) and self.unit.float_mode:
+            self.promote.add(term)      # pass 1: an int variable used among floats — in pass 2 it is a float from its first assignment (which must be the literal 0)
+            return term
+        fail(node, f"a {ty} where a float is needed (among floats only the int literal 0 is converted)")
+
+    def ops(self):
+        self.uses_o = True
+        return "o"
 
     def as_prop(self, term, ty, node):
         if ty == "prop":
@@ -209,6 +259,13 @@ class Fn:
                 return self.effect(ind, f'{v.value.value.id} {k} "{n.attr}"', "dec")
             if n.attr in ("start", "end") and isinstance(n.value, ast.Name) and env.get(n.value.id) == "trange":
                 return f"{n.value.id}.{1 if n.attr == 'start' else 2}", "time"     # TimeRange(start, end)
+            if isinstance(n.value, ast.Name) and n.value.id not in env and (n.value.id, n.attr) in self.unit.enums:
+                return f"({self.unit.enums[(n.value.id, n.attr)]} : Int)", "int"      # a member of an int-valued Enum of the source: its value
+            if isinstance(n.value, ast.Name) and isinstance(env.get(n.value.id), tuple) and env[n.value.id][0] == "rec":
+                fields = RECORDS[env[n.value.id][1]]
+                if n.attr not in dict(fields):
+                    fail(n, f"{env[n.value.id][1]} has no field {n.attr}")
+                return rec_proj(n.value.id, fields, n.attr), dict(fields)[n.attr]
             if n.attr == "name":
                 a, ta = self.expr(n.value, env, ind)
                 if ta == "tok":
@@ -224,6 +281,8 @@ class Fn:
                     return f"(-{a})", "int"
                 if ta == "dec":
                     return f"(Py.dneg {self.cx()} {a})", "dec"
+                if ta == "flt":
+                    return f"(-{a})", "flt"
             if isinstance(n.op, ast.UAdd):
                 if ta == "int":
                     return a, "int"
@@ -267,6 +326,9 @@ class Fn:
                 # and a Decimal of that value behave alike (arithmetic with a Decimal partner, comparisons, Decimal())
                 a, b = self.as_dec(a, ta, n) if ta == "int" else a, self.as_dec(b, tb, n) if tb == "int" else b
                 ta = tb = "dec0"
+            if isinstance(ta, str) and isinstance(tb, str) and {ta, tb} == {"int", "flt"}:
+                a, b = self.as_flt(a, ta, n), self.as_flt(b, tb, n)
+                ta = tb = "flt"
             if isinstance(ta, str) and isinstance(tb, str) and {ta, tb} == {"dec", "xdec"}:
                 if ta == "dec": a, ta = f"(Py.XDec.fin {a})", "xdec"
                 if tb == "dec": b, tb = f"(Py.XDec.fin {b})", "xdec"
@@ -291,6 +353,16 @@ class Fn:
                 if ta == "prop": a, ta = self.as_bool(a, ta, e), "bool"
                 parts.append(a); tys.append(ta)
             return "(" + ", ".join(parts) + ")", ("tuple", tys)
+        if isinstance(n, ast.List):
+            if not n.elts:
+                fail(n, "empty list literal (its element type is not known)")
+            parts, tys = [], []
+            for e in n.elts:
+                a, ta = self.expr(e, env, ind)
+                parts.append(a); tys.append(ta)
+            if any(t != tys[0] for t in tys) or tys[0] not in ("int", "dec", "time", "delta"):
+                fail(n, f"list literal with elements of types {tys} (one of int / Decimal / time is needed)")
+            return "[" + ", ".join(parts) + "]", ("list", tys[0])
         if isinstance(n, ast.ListComp):
             if len(n.generators) != 1 or n.generators[0].ifs or n.generators[0].is_async or not isinstance(n.generators[0].target, ast.Name):
                 fail(n, "list comprehension with several generators, a filter or a tuple target")
@@ -313,6 +385,13 @@ class Fn:
                 if tk != "str":
                     fail(n, "dict subscript with a non-str key")
                 return self.effect(ind, f"Py.lookup {d} {k}", td[1])
+            if isinstance(td, tuple) and td[0] == "list":
+                if isinstance(n.slice, ast.Slice):
+                    fail(n, "slice of a list")
+                k, tk = self.expr(n.slice, env, ind)
+                if tk != "int":
+                    fail(n, f"list index of type {tk}")
+                return self.effect(ind, f"Py.index {d} {k}", td[1])       # IndexError when out of range; negative indices count from the end
             fail(n, f"subscript of a {td}")
         fail(n, f"expression {type(n).__name__}")
 
@@ -346,6 +425,10 @@ class Fn:
             a = a if ta == "fconst" else self.as_dec(a, ta, n)
             b = b if tb == "fconst" else self.as_dec(b, tb, n)
             return f"({a} {sym} {b})"
+        if "flt" in (ta, tb):
+            if sym in ("=", "≠"):
+                fail(n, "== / != between floats (not in the subset: use an ordering comparison)")
+            return f"({self.as_flt(a, ta, n)} {sym} {self.as_flt(b, tb, n)})"
         if ta == tb and ta in ("int", "dec"):
             return f"({a} {sym} {b})"
         if {ta, tb} == {"int", "dec"}:  # exact comparison, no rounding
@@ -370,6 +453,14 @@ class Fn:
             nm = rn.id if isinstance(rn, ast.Name) else (rn.attr if isinstance(rn, ast.Attribute) else None)
             if nm in self.consts and isinstance(self.unit.const_values.get(nm), int):
                 cb = self.unit.const_values[nm]
+        if "flt" in (ta, tb):
+            a, b = self.as_flt(a, ta, n), self.as_flt(b, tb, n)
+            if isinstance(op, ast.Add): return f"({a} + {b})", "flt"
+            if isinstance(op, ast.Sub): return f"({a} - {b})", "flt"
+            if isinstance(op, ast.Mult): return f"({a} * {b})", "flt"
+            if isinstance(op, ast.Div): return self.effect(ind, f"Py.fdiv {self.ops()} {a} {b}", "flt")      # ZeroDivisionError when b == 0
+            if isinstance(op, ast.Pow): return self.effect(ind, f"Py.fpow {self.ops()} {a} {b}", "flt")      # CPython's float_pow
+            fail(n, f"float operator {type(op).__name__} (only + - * / ** are translated)")
         if ta == "int" and tb == "int":
             if isinstance(op, ast.Add): return f"({a} + {b})", "int"
             if isinstance(op, ast.Sub): return f"({a} - {b})", "int"
@@ -433,18 +524,27 @@ class Fn:
 
     def call(self, n, env, ind):
         f = n.func
+        if isinstance(f, ast.Name) and f.id in self.unit.records and f.id not in env:
+            return self.record_call(n, env, ind)
         if n.keywords and not (isinstance(f, ast.Attribute) and f.attr == "quantize"):
             fail(n, "keyword arguments")
         fname = None
-        if isinstance(f, ast.Name):
+        if isinstance(f, ast.Name) and f.id in env:
+            fail(n, f"call of the local variable '{f.id}'")
+        if isinstance(f, ast.Name) and (self.unit.cur_parent, f.id) in self.unit.nested_alias:
+            fname = self.unit.nested_alias[(self.unit.cur_parent, f.id)]      # a function defined inside the function being translated (or a sibling)
+        elif isinstance(f, ast.Name):
             fname = f.id
+        elif isinstance(f, ast.Attribute) and isinstance(f.value, ast.Name) and f.value.id not in env \
+                and f"{f.value.id}.{f.attr}" in self.unit.by_src:
+            fname = f"{f.value.id}.{f.attr}"       # ClassName.static_method(...), the class being this one or one of a used file
         elif isinstance(f, ast.Attribute) and isinstance(f.value, ast.Name) and f.value.id == self.unit.cur_cls:
             fname = f.attr       # ClassName.static_method(...)
         elif isinstance(f, ast.Attribute) and isinstance(f.value, ast.Name) and f.value.id == "self" and self.unit.cur_cls \
                 and self.unit.method_alias.get((self.unit.cur_cls, f.attr)) in self.unit.sigs:
             fname = self.unit.method_alias[(self.unit.cur_cls, f.attr)]       # self.method(...) of the same class, itself translated
         # ---- builtins
-        if isinstance(f, ast.Name) and fname not in self.unit.sigs:
+        if isinstance(f, ast.Name) and fname not in self.unit.sigs and fname not in self.unit.by_src:
             args = n.args
             if fname == "Decimal":
                 if len(args) != 1: fail(n, "Decimal() with other than one argument")
@@ -466,6 +566,7 @@ class Fn:
                 a, ta = self.expr(args[0], env, ind)
                 if ta == "int": return f"(Py.iabs {a})", "int"
                 if ta == "dec": return f"(Py.dabs {self.cx()} {a})", "dec"
+                if ta == "flt": return f"(Py.fabs {a})", "flt"
                 fail(n, f"abs() of a {ta}")
             if fname == "datetime" and len(args) == 5 and all(isinstance(x, ast.Attribute) and isinstance(x.value, ast.Name) for x in args) \
                     and [x.attr for x in args] == ["year", "month", "day", "hour", "minute"] and len({x.value.id for x in args}) == 1 \
@@ -481,11 +582,26 @@ class Fn:
                 if len(args) != 2: fail(n, f"{fname}() with other than two arguments")
                 a, ta = self.expr(args[0], env, ind)
                 b, tb = self.expr(args[1], env, ind)
-                if ta != tb or ta not in ("int", "dec"):
+                if "flt" in (ta, tb):
+                    a, b = self.as_flt(a, ta, n), self.as_flt(b, tb, n)
+                    ta = tb = "flt"
+                if ta != tb or ta not in ("int", "dec", "flt"):
                     fail(n, f"{fname}() of {ta} and {tb}")
                 # CPython: min(a, b) = b if b < a else a ; max(a, b) = b if b > a else a
                 rel = "<" if fname == "min" else ">"
                 return f"(if {b} {rel} {a} then {b} else {a})", ta
+            if fname == "len":
+                if len(args) != 1: fail(n, "len() with other than one argument")
+                l, tl = self.expr(args[0], env, ind)
+                if not (isinstance(tl, tuple) and tl[0] in ("list", "dict")):
+                    fail(n, f"len() of a {tl}")
+                return f"(({l}.length : Nat) : Int)", "int"
+            if fname == "sorted":
+                if len(args) != 1: fail(n, "sorted() with other than one argument")
+                l, tl = self.expr(args[0], env, ind)
+                if tl != ("list", "int"):
+                    fail(n, f"sorted() of a {tl} (only lists of ints)")
+                return f"(Py.sorted {l})", tl        # a new list: ints compare by value, so every correct sort gives this list
             if fname == "sum":
                 return self.sum_call(n, env, ind)
             if fname == "isinstance" and len(args) == 2 and isinstance(args[0], ast.Name) and getattr(args[1], "id", None) in ("Decimal", "int"):
@@ -508,36 +624,198 @@ class Fn:
                 if isinstance(td, tuple) and td[0] == "dict":
                     return d, ("keys", td[1])
             fail(n, f"method call .{f.attr}()")
-        if fname not in self.unit.sigs:
+        if fname not in self.unit.sigs and fname not in self.unit.by_src:
             fail(n, f"call of '{fname}', which is not translated")
-        sig = self.unit.sigs[fname]
-        if sig.ret is None:
-            fail(n, f"call of '{fname}', whose translation failed")
+        r = self.translated_call(n, fname, env, ind, as_statement=False)
+        return r
+
+    def translated_call(self, n, fname, env, ind, as_statement):
+        """a call of a translated function.  The arguments are evaluated first (left to right); among several translations of the same source
+        function (the same code read under different argument types, `as` in the signature table) the first whose parameter types fit is taken.
+        `obj` parameters (objects reachable only through the read table) take a plain name and pass no value: what the callee reads from them
+        the caller must read too — the callee's read `pos.lower_tick` with `pos := position_info` is the caller's read `position_info.lower_tick`."""
+        cands = list(self.unit.by_src.get(fname, []))
+        if fname in self.unit.sigs and fname not in cands:
+            cands.insert(0, fname)
+        args = []
+        for arg in n.args:
+            if self.is_obj_expr(arg, env):
+                args.append((arg, "obj"))
+                continue
+            a, ta = self.expr(arg, env, ind)
+            if ta == "prop": a, ta = self.as_bool(a, ta, arg), "bool"
+            args.append((a, ta))
+        sig, why = None, ""
+        for c in cands:
+            sg = self.unit.sigs[c]
+            if sg.ret is None:
+                why = why or f"call of '{c}', whose translation failed"
+                continue
+            if len(args) != len(sg.params):
+                why = why or f"call of {c} with {len(args)} arguments (expects {len(sg.params)})"
+                continue
+            def fits(ta, pt):       # an Optional parameter takes a value or None
+                return ta == pt or (isinstance(pt, tuple) and pt[0] == "opt" and ta in (pt[1], "none")) \
+                    or (pt == "flt" and ta == "int")       # float mode: the literal 0 (checked by as_flt below)
+            bad = [(pn, pt, ta) for (a, ta), (pn, pt) in zip(args, sg.params) if not fits(ta, pt)]
+            if bad:
+                pn, pt, ta = bad[0]
+                why = why or f"argument '{pn}' of {c}: a {ta} is passed where the translated signature has {pt}"
+                continue
+            sig = sg
+            break
+        if sig is None:
+            fail(n, why or f"call of '{fname}', which is not translated")
+        fname = sig.name
+        objmap = {pn: a for (a, ta), (pn, pt) in zip(args, sig.params) if pt == "obj"}
+        terms = []
+        for (a, ta), (pn, pt) in zip(args, sig.params):
+            if pt == "obj":
+                continue
+            if isinstance(pt, tuple) and pt[0] == "opt" and ta == pt[1]:
+                a = f"(some {a})"
+            elif pt == "flt" and ta == "int":
+                a = self.as_flt(a, ta, n)
+            terms.append(a)
+        unit = self.unit
+
+        class _Subst(ast.NodeTransformer):
+            """the callee's read, written in the caller's terms: its object parameters replaced by the argument expressions; a field of an object
+            built at the call site (`Params(a, b, …).f`) is the constructor's argument for that field"""
+            def visit_Name(self, node):
+                return copy.deepcopy(objmap[node.id]) if node.id in objmap else node
+
+            def visit_Attribute(self, node):
+                node = self.generic_visit(node)
+                v = node.value
+                if isinstance(v, ast.Call) and isinstance(v.func, ast.Name) and v.func.id in unit.obj_records:
+                    fields = unit.obj_records[v.func.id]
+                    if isinstance(fields, str):
+                        fail(n, fields)
+                    given = dict(zip(fields, v.args))
+                    for kw in v.keywords:
+                        given[kw.arg] = kw.value
+                    if node.attr not in given:
+                        fail(n, f"{v.func.id}(…) is built without its field {node.attr}")
+                    return given[node.attr]
+                return node
+
+        def caller_text(key):
+            if not objmap:
+                return key
+            return ast.unparse(_Subst().visit(ast.parse(key, mode="eval").body))
         read_args = []
+        state_vars = []
         if getattr(sig, "reads", None):
             # the callee reads object attributes / data rows: the caller reads the same ones (same object, same bar) and hands them on
-            if getattr(sig, "state", None):
-                fail(n, f"call of '{fname}', which updates object fields")
+            st_keys = getattr(sig, "state", None) or {}
+            if st_keys and not (as_statement and getattr(sig, "state_only", False)):
+                fail(n, f"call of '{fname}', which updates object fields" + ("" if not as_statement else " and returns a value"))
             table = {nm: ty for nm, ty in self.unit.cur_reads.values()}
-            for nm, ty in sig.reads:
-                if table.get(nm) != ty:
+            for key, nm, ty in sig.read_keys:
+                if objmap:
+                    here = caller_text(key)
+                    got = self.unit.cur_reads.get(here)
+                    if got is None:
+                        # not a read of the caller: a value the caller computed and put into the object it hands over (a local, a constant)
+                        mark = len(self.lines)
+                        a_, ta_ = self.expr(ast.parse(here, mode="eval").body, env, ind)
+                        if len(self.lines) != mark:
+                            fail(n, f"call of '{fname}': its input `{key}` is `{here}` here, which can raise")
+                        if ta_ == "prop": a_, ta_ = self.as_bool(a_, ta_, n), "bool"
+                        if ty == "flt" and ta_ == "int": a_, ta_ = self.as_flt(a_, ta_, n), "flt"
+                        if ta_ != ty:
+                            fail(n, f"call of '{fname}': its input `{key}` (here `{here}`, a {ta_}) is a {ty} in its read table")
+                        read_args.append(a_)
+                        continue
+                    if got[1] != ty:
+                        fail(n, f"call of '{fname}': its input `{key}` (here `{here}`) has another type in the calling function's read table")
+                    nm = got[0]
+                elif table.get(nm) != ty:
                     fail(n, f"call of '{fname}': its input '{nm}' is not an input of the calling function's read table")
                 self.used_reads[nm] = ty
                 read_args.append(nm)
-        if len(n.args) != len(sig.params):
-            fail(n, f"call of {fname} with {len(n.args)} arguments (expects {len(sig.params)})")
-        terms = []
-        for arg, (pn, pt) in zip(n.args, sig.params):
-            a, ta = self.expr(arg, env, ind)
-            if ta == "prop": a, ta = self.as_bool(a, ta, arg), "bool"
-            if ta != pt:
-                fail(n, f"argument '{pn}' of {fname}: a {ta} is passed where the translated signature has {pt}")
-            terms.append(a)
+            for key, (nm, ty) in st_keys.items():
+                got = (self.unit.cur_state or {}).get(caller_text(key))
+                if got is None or got[1] != ty:
+                    fail(n, f"call of '{fname}': the field `{key}` it updates (here `{caller_text(key)}`) is not a field of the calling function's state table")
+                state_vars.append(got[0])
+                read_args.append(got[0])
         cxs = (self.cx() + " ") if sig.uses_cx else ""
+        if getattr(sig, "uses_o", False):
+            cxs = self.ops() + " " + cxs
         if sig.uses_pow:
             self.uses_pow = True
             cxs += "dpow "
-        return self.effect(ind, f"{sig.lean_name} {cxs}" + " ".join(read_args + terms), sig.ret)
+        if getattr(sig, "uses_fuel", False):
+            fail(n, f"call of '{fname}', which contains a while loop (fuel is not threaded through calls)")
+        action = f"{sig.lean_name} {cxs}" + " ".join(read_args + terms)
+        if as_statement:
+            if state_vars:
+                for v in state_vars:
+                    self.reassigned.add(v)
+                pat = state_vars[0] if len(state_vars) == 1 else "(" + ", ".join(state_vars) + ")"
+                self.emit(ind, f"{pat} ← {action}")
+            elif sig.ret == "unit":
+                self.emit(ind, f"let _ ← {action}")
+            else:
+                fail(n, f"the result of '{fname}' is discarded")
+            return None
+        return self.effect(ind, action, sig.ret)
+
+    def is_obj_expr(self, arg, env):
+        """an argument that is an object of the read tables: a parameter of type obj, an attribute chain on one that is not itself a read
+        (`params.pool_config`), or an object built at the call site from a class of `obj_records`"""
+        if isinstance(arg, ast.Name):
+            return env.get(arg.id) == "obj"
+        if isinstance(arg, ast.Attribute):
+            root = arg
+            while isinstance(root, ast.Attribute):
+                root = root.value
+            return isinstance(root, ast.Name) and env.get(root.id) == "obj" and ast.unparse(arg) not in self.unit.cur_reads
+        if isinstance(arg, ast.Call) and isinstance(arg.func, ast.Name) and arg.func.id in self.unit.obj_records and arg.func.id not in env:
+            fields = self.unit.obj_records[arg.func.id]
+            if isinstance(fields, str):
+                fail(arg, fields)
+            names = list(fields[:len(arg.args)]) + [kw.arg for kw in arg.keywords]
+            if len(arg.args) > len(fields) or sorted(names) != sorted(fields):
+                fail(arg, f"{arg.func.id}(…) is not built with exactly its fields {fields}")
+            return True
+        return False
+
+    def record_call(self, n, env, ind):
+        """`PositionInfo(lower_tick=a, upper_tick=b)`: a NamedTuple of the source (fields checked against its class definition) is the tuple of its fields"""
+        name = n.func.id
+        fields = self.unit.records[name]
+        if isinstance(fields, str):
+            fail(n, fields)
+        given = {}
+        for (fn_, ft), arg in zip(fields, n.args):
+            given[fn_] = arg
+        if len(n.args) > len(fields):
+            fail(n, f"{name}() with too many arguments")
+        for kw in n.keywords:
+            if kw.arg is None or kw.arg in given or kw.arg not in dict(fields):
+                fail(n, f"{name}() with an unknown or repeated field {kw.arg}")
+            given[kw.arg] = kw.value
+        if len(given) != len(fields):
+            fail(n, f"{name}() without all of its fields (defaults are not modelled)")
+        # Python evaluates positional arguments, then keywords, in source order
+        order = list(n.args) + [kw.value for kw in n.keywords]
+        vals = {}
+        for arg in order:
+            a, ta = self.expr(arg, env, ind)
+            vals[id(arg)] = (a, ta)
+        parts, tys = [], []
+        for fn_, ft in fields:
+            a, ta = vals[id(given[fn_])]
+            if ta == "prop": a, ta = self.as_bool(a, ta, n), "bool"
+            if ft == "flt" and ta == "int":
+                a, ta = self.as_flt(a, ta, n), "flt"
+            if ta != ft:
+                fail(n, f"field {fn_} of {name}: a {ta} where the record table has {ft}")
+            parts.append(a); tys.append(ft)
+        return ("(" + ", ".join(parts) + ")" if len(parts) > 1 else parts[0]), ("rec", name)
 
     def quantize(self, n, env, ind):
         """`x.quantize(Decimal(f"1e{k}") | Decimal(<int or "literal">) [, rounding=decimal.ROUND_*])`  ↦  `Py.quantize mode x k`"""
@@ -602,6 +880,21 @@ class Fn:
 
     def loop_header(self, target, it, env, ind, n):
         """`for k, v in d.items()` / `for k in d` / `for v in d.values()`: returns (lean pattern, env in the body)"""
+        if isinstance(it, ast.Call) and isinstance(it.func, ast.Name) and it.func.id == "range" and "range" not in env:
+            # `for i in range(b)` / `range(a, b)`: the ints a, a+1, …, b-1 (none when b ≤ a); the bounds are evaluated once, before the loop
+            if it.keywords or len(it.args) not in (1, 2) or not isinstance(target, ast.Name):
+                fail(n, "range() with a step / keywords, or a tuple target")
+            bounds = []
+            for a_ in it.args:
+                t_, ty_ = self.expr(a_, env, ind)
+                if ty_ != "int":
+                    fail(n, f"range() bound of type {ty_}")
+                bounds.append(t_)
+            lo_, hi_ = ("(0 : Int)", bounds[0]) if len(bounds) == 1 else bounds
+            env2 = dict(env)
+            env2[target.id] = "int"
+            self.iter_term = f"(Py.range {lo_} {hi_})"
+            return target.id, env2
         if isinstance(it, ast.Call) and isinstance(it.func, ast.Attribute) and not it.args and it.func.attr in ("items", "values", "keys"):
             d, td = self.expr(it.func.value, env, ind)
             kind = it.func.attr
@@ -650,11 +943,28 @@ class Fn:
                 continue  # a local import binds names; using one of them fails at the use
             if isinstance(s, ast.Pass):
                 continue
+            emitted_before = emitted
             emitted = True
             if isinstance(s, ast.Return):
                 if s.value is None:
                     fail(s, "bare return (None)")
-                a, ta = self.expr(s.value, env, ind)
+                w = getattr(self, "want_ret", None)
+                if isinstance(w, tuple) and w[0] == "tuple" and isinstance(s.value, ast.Tuple) and len(s.value.elts) == len(w[1]):
+                    # the unified return type is a tuple some of whose components are an int on one path and a Decimal on another
+                    parts = []
+                    for e, wt in zip(s.value.elts, w[1]):
+                        a, ta = self.expr(e, env, ind)
+                        if ta == "prop": a, ta = self.as_bool(a, ta, s), "bool"
+                        if wt == "dec0" and ta in ("int", "dec", "dec0"):
+                            a, ta = (self.as_dec(a, ta, s) if ta == "int" else a), "dec0"
+                        if wt == "flt" and ta == "int":
+                            a, ta = self.as_flt(a, ta, s), "flt"
+                        if ta != wt:
+                            fail(s, f"return statements of different types ({w}, component {ta})")
+                        parts.append(a)
+                    a, ta = "(" + ", ".join(parts) + ")", w
+                else:
+                    a, ta = self.expr(s.value, env, ind)
                 if ta == "prop": a, ta = self.as_bool(a, ta, s), "bool"
                 a, ta = self.coerce_ret(a, ta, s)
                 self.set_ret(ta, s)
@@ -681,7 +991,11 @@ class Fn:
             if isinstance(s, (ast.Assign, ast.AnnAssign)):
                 if isinstance(s, ast.Assign):
                     if len(s.targets) != 1:
-                        fail(s, "chained assignment")
+                        if not (isinstance(s.value, ast.Constant) and all(isinstance(tg, ast.Name) for tg in s.targets)):
+                            fail(s, "chained assignment (only `a = b = <constant>` is translated)")
+                        for tg in s.targets:          # the constant is assigned to each name, left to right
+                            self.assign(tg, s.value, None, env, ind, s)
+                        continue
                     target, value, ann = s.targets[0], s.value, None
                 else:
                     target, value, ann = s.target, s.value, s.annotation
@@ -690,22 +1004,46 @@ class Fn:
                 self.assign(target, value, ann, env, ind, s)
                 continue
             if isinstance(s, ast.AugAssign):
-                if not isinstance(s.target, ast.Name):
-                    fail(s, "augmented assignment to a non-name")
-                fake = ast.BinOp(left=ast.Name(id=s.target.id, ctx=ast.Load()), op=s.op, right=s.value)
-                ast.copy_location(fake, s); ast.copy_location(fake.left, s)
+                if isinstance(s.target, ast.Attribute) and isinstance(s.target.value, ast.Name):
+                    left = ast.Attribute(value=ast.Name(id=s.target.value.id, ctx=ast.Load()), attr=s.target.attr, ctx=ast.Load())
+                elif isinstance(s.target, ast.Name):
+                    left = ast.Name(id=s.target.id, ctx=ast.Load())
+                else:
+                    fail(s, "augmented assignment to something other than a name or a field of a local record")
+                fake = ast.BinOp(left=left, op=s.op, right=s.value)
+                ast.fix_missing_locations(ast.copy_location(fake, s))
                 self.assign(s.target, fake, None, env, ind, s)
                 continue
             if isinstance(s, ast.If):
                 c, tc = self.expr(s.test, env, ind)
                 if self.conditional_assignment(s, self.as_prop(c, tc, s), env, ind):
                     continue
+                key, pre = (s.lineno, s.col_offset), []
+                if not self.probing:
+                    # N3: a variable first assigned inside every continuing branch is declared before the `if` with a placeholder no path can read
+                    for nm, ty in self.hoist.get(key, []):
+                        if nm not in env and nm not in self.hoisted:
+                            self.emit(ind, f"let mut {nm} := {placeholder(ty)}")
+                            self.hoisted[nm] = ty
+                            pre.append(nm)
                 self.emit(ind, f"if {self.as_prop(c, tc, s)} then")
                 env_a, term_a = self.block(s.body, env, ind + 1)
                 term_b, env_b = False, env
                 if s.orelse:
                     self.emit(ind, "else")
                     env_b, term_b = self.block(s.orelse, env, ind + 1)
+                live = [e for e, dead in ((env_a, term_a), (env_b, term_b)) if not dead]
+                common = [nm for nm in live[0] if nm not in env and all(nm in e and e[nm] == live[0][nm] for e in live)] if live else []
+                if self.probing:
+                    self.hoist[key] = [(nm, live[0][nm]) for nm in common]
+                    for nm in common:
+                        env[nm] = live[0][nm]
+                else:
+                    for nm in pre:
+                        self.hoisted.pop(nm, None)
+                    for nm in common:
+                        if nm in dict(self.hoist.get(key, [])):
+                            env[nm] = live[0][nm]
                 # after the statement: only variables declared BEFORE it are in scope (a `let` inside a branch is
                 # local to the branch in Lean); their types must agree on every path that continues
                 for live_env, dead in ((env_a, term_a), (env_b, term_b)):
@@ -714,12 +1052,27 @@ class Fn:
                     for k in env:
                         if isinstance(live_env[k], str) and isinstance(env[k], str) and {live_env[k], env[k]} == {"dec", "dec0"}:
                             env[k] = "dec0"
+                        elif self.probing and isinstance(live_env[k], str) and isinstance(env[k], str) and {live_env[k], env[k]} == {"int", "flt"}:
+                            self.promote.add(k)       # float mode, pass 1: the int literal 0 on one path, a float on another
+                            env[k] = "flt"
                         elif live_env[k] != env[k]:
                             fail(s, f"variable '{k}' changes type inside a branch")
                 if term_a and term_b:
                     if i + 1 < len(stmts):
                         fail(stmts[i + 1], "unreachable statement after if/else that always returns")
                     return env, True
+                if term_a and not s.orelse and self.unit.narrow:
+                    # N2: after `if x is None [or y is None]: return / raise`, x (and y) hold values: `x ← Py.unwrap x` (cannot fail here) shadows the
+                    # Optional by its value
+                    tests = s.test.values if isinstance(s.test, ast.BoolOp) and isinstance(s.test.op, ast.Or) else [s.test]
+                    if all(isinstance(t_, ast.Compare) and len(t_.ops) == 1 and isinstance(t_.ops[0], ast.Is) and isinstance(t_.left, ast.Name)
+                           and isinstance(t_.comparators[0], ast.Constant) and t_.comparators[0].value is None
+                           and isinstance(env.get(t_.left.id), tuple) and env[t_.left.id][0] == "opt" for t_ in tests):
+                        for t_ in tests:
+                            nm = t_.left.id
+                            m_ = "mut " if nm in self.mut else ""
+                            self.emit(ind, f"let {m_}{nm} ← Py.unwrap {nm}")
+                            env[nm] = env[nm][1]
                 continue
             if isinstance(s, ast.For):
                 if s.orelse:
@@ -731,16 +1084,126 @@ class Fn:
                         fail(m, f"{type(m).__name__.lower()} inside a for loop")
                 env_l, term_l = self.block(s.body, env2, ind + 1)
                 for k in env:
-                    if env_l[k] != env[k]:
+                    if self.probing and isinstance(env_l[k], str) and isinstance(env[k], str) and {env_l[k], env[k]} == {"int", "flt"}:
+                        self.promote.add(k)
+                        env[k] = "flt"
+                    elif env_l[k] != env[k]:
                         fail(s, f"variable '{k}' changes type inside the loop")
                 continue
             if isinstance(s, ast.While):
                 self.while_loop(s, env, ind)
                 continue
+            if isinstance(s, ast.FunctionDef):
+                if (self.unit.cur_parent, s.name) in self.unit.nested_alias and s.name in {d.name for d in self.unit.cur_nested_ok}:
+                    emitted = emitted_before          # translated on its own (see `nested_in` in the signature table); the layout was checked
+                    continue
+                fail(s, f"nested function '{s.name}' (not in the signature table, or not defined at the top of the enclosing function)")
+            if isinstance(s, ast.Expr) and isinstance(s.value, ast.Call):
+                self.call_statement(s.value, env, ind)
+                continue
             fail(s, f"statement {type(s).__name__}")
         if not emitted:
             self.emit(ind, "pure ()")
         return env, False
+
+    def call_statement(self, c, env, ind):
+        """an expression statement that is a call: `xs.sort()` on a local list of ints; a translated procedure; a translated function that only
+        updates the object fields of the state table (the caller's fields are re-assigned from its result)"""
+        f = c.func
+        if isinstance(f, ast.Attribute) and f.attr == "sort" and isinstance(f.value, ast.Name):
+            if c.args or c.keywords:
+                fail(c, ".sort() with arguments")
+            nm = f.value.id
+            if env.get(nm) != ("list", "int"):
+                fail(c, f".sort() of a {env.get(nm)} (only local lists of ints)")
+            self.check_unaliased_list(nm, c)
+            self.reassigned.add(nm)
+            self.emit(ind, f"{nm} := Py.sorted {nm}")
+            return
+        if c.keywords:
+            fail(c, "keyword arguments")
+        fname = None
+        if isinstance(f, ast.Name) and f.id in env:
+            fail(c, f"call of the local variable '{f.id}'")
+        if isinstance(f, ast.Name) and (self.unit.cur_parent, f.id) in self.unit.nested_alias:
+            fname = self.unit.nested_alias[(self.unit.cur_parent, f.id)]
+        elif isinstance(f, ast.Name):
+            fname = f.id
+        elif isinstance(f, ast.Attribute) and isinstance(f.value, ast.Name) and f.value.id not in env \
+                and f"{f.value.id}.{f.attr}" in self.unit.by_src:
+            fname = f"{f.value.id}.{f.attr}"
+        elif isinstance(f, ast.Attribute) and isinstance(f.value, ast.Name) and f.value.id == self.unit.cur_cls:
+            fname = f.attr
+        elif isinstance(f, ast.Attribute) and isinstance(f.value, ast.Name) and f.value.id == "self" and self.unit.cur_cls \
+                and self.unit.method_alias.get((self.unit.cur_cls, f.attr)) in self.unit.sigs:
+            fname = self.unit.method_alias[(self.unit.cur_cls, f.attr)]
+        if fname is None or (fname not in self.unit.sigs and fname not in self.unit.by_src):
+            fail(c, f"expression statement: call of '{ast.unparse(f)}', which is not translated")
+        self.translated_call(c, fname, env, ind, as_statement=True)
+
+    def check_unaliased_list(self, nm, node):
+        """`xs.sort()` mutates the list object: sound as a re-assignment of the variable only if no other name can hold the same object.  Required:
+        `xs` is a local (not a parameter / read), every binding of it is a fresh list (literal, comprehension, `sorted(…)`), and it is used only in
+        `xs[i]`, `for … in xs`, `… in xs`, `sorted(xs)`, `max(xs)`, `xs.sort()`"""
+        if nm in dict(self.params):
+            fail(node, f".sort() of the parameter '{nm}' (the caller's list would change)")
+        parents = {}
+        for m in ast.walk(self.fdef):
+            for ch in ast.iter_child_nodes(m):
+                parents[ch] = m
+        for m in ast.walk(self.fdef):
+            if not (isinstance(m, ast.Name) and m.id == nm):
+                continue
+            par = parents.get(m)
+            if isinstance(m.ctx, ast.Store):
+                ok = isinstance(par, ast.Assign) and len(par.targets) == 1 and par.targets[0] is m and (
+                    isinstance(par.value, (ast.List, ast.ListComp))
+                    or (isinstance(par.value, ast.Call) and isinstance(par.value.func, ast.Name) and par.value.func.id == "sorted"))
+                if not ok:
+                    fail(m, f"'{nm}' is sorted in place, so every binding of it must be a fresh list (literal, comprehension or sorted())")
+                continue
+            ok = (isinstance(par, ast.Subscript) and par.value is m) \
+                or (isinstance(par, ast.For) and par.iter is m) \
+                or (isinstance(par, ast.comprehension) and par.iter is m) \
+                or (isinstance(par, ast.Compare) and m in par.comparators and all(isinstance(o, (ast.In, ast.NotIn)) for o in par.ops)) \
+                or (isinstance(par, ast.Call) and isinstance(par.func, ast.Name) and par.func.id in ("sorted", "max", "len") and par.args == [m]) \
+                or (isinstance(par, ast.Attribute) and par.attr == "sort" and par.value is m and isinstance(parents.get(par), ast.Call))
+            if not ok:
+                fail(m, f"'{nm}' is sorted in place and used where another name could come to hold the same list (line {getattr(m, 'lineno', '?')})")
+
+    def check_unaliased_record(self, nm, node):
+        """`r.f = e` mutates the dataclass instance: sound as a re-assignment of the variable only if no other name can hold the same object.  Required:
+        `r` is a local (not a parameter), every binding of it is a fresh object (the constructor, or the result of a translated call — a translated
+        function has no globals and may not return a parameter that is a record, see Unit.generate), and it is used only in `r.f`, `r.f = e`, and in a
+        `return`"""
+        if nm in dict(self.params):
+            fail(node, f"assignment to a field of the parameter '{nm}' (the caller's object would change)")
+        parents = {}
+        for m in ast.walk(self.fdef):
+            for ch in ast.iter_child_nodes(m):
+                parents[ch] = m
+        for m in ast.walk(self.fdef):
+            if not (isinstance(m, ast.Name) and m.id == nm):
+                continue
+            par = parents.get(m)
+            if isinstance(m.ctx, ast.Store):
+                tgt_par = par
+                ok = False
+                if isinstance(par, (ast.Assign, ast.AnnAssign)):
+                    ok = isinstance(par.value, ast.Call)
+                elif isinstance(par, ast.Tuple) and isinstance(parents.get(par), ast.Assign):
+                    ok = isinstance(parents[par].value, ast.Call)
+                if not ok:
+                    fail(m, f"a field of '{nm}' is assigned, so every binding of it must be a fresh object (a constructor or a call)")
+                continue
+            ok = (isinstance(par, ast.Attribute) and par.value is m)
+            if not ok:
+                up, node_ = par, m
+                while isinstance(up, ast.Tuple):
+                    up, node_ = parents.get(up), up
+                ok = isinstance(up, ast.Return)
+            if not ok:
+                fail(m, f"a field of '{nm}' is assigned and '{nm}' is used where another name could come to hold the same object (line {getattr(m, 'lineno', '?')})")
 
     def while_loop(self, s, env, ind):
         """`while c: body` ↦ `vars ← Py.whileFuel (fun vars => do …; pure (decide c)) (fun vars => do body; pure vars) fuel vars`: the variables the
@@ -787,6 +1250,15 @@ class Fn:
             return False
         mark, ntmp = len(self.lines), self.ntmp
         a, ta = self.expr(s.body[0].value, env, ind)
+        t_ = s.test
+        if self.unit.narrow and len(self.lines) == mark and isinstance(tg, ast.Name) and isinstance(t_, ast.Compare) and len(t_.ops) == 1 and isinstance(t_.ops[0], ast.Is) \
+                and isinstance(t_.left, ast.Name) and t_.left.id == tg.id and isinstance(t_.comparators[0], ast.Constant) and t_.comparators[0].value is None \
+                and isinstance(env[tg.id], tuple) and env[tg.id][0] == "opt" and env[tg.id][1] == ta:
+            # N2: `if x is None: x = e` on an Optional x (e cannot raise): from here on x is a value — `x` is shadowed by `x.getD e`
+            m_ = "mut " if tg.id in self.mut else ""
+            self.emit(ind, f"let {m_}{tg.id} := (Option.getD {tg.id} {a})")
+            env[tg.id] = ta
+            return True
         if len(self.lines) != mark:          # the right-hand side can raise: keep the statement form
             del self.lines[mark:]
             self.ntmp = ntmp
@@ -795,6 +1267,11 @@ class Fn:
         want = env[names[0].id] if not isinstance(tg, ast.Tuple) else ("tuple", [env[e.id] for e in names])
         if isinstance(ta, str) and isinstance(want, str) and {ta, want} == {"dec", "dec0"}:
             env[names[0].id] = want = ta = "dec0"      # Decimal on one path, int-or-Decimal on the other
+        if isinstance(tg, ast.Name) and ta == "int" and tg.id in self.promote:
+            a, ta = self.as_flt(a, ta, s), "flt"
+        if self.probing and isinstance(ta, str) and isinstance(want, str) and {ta, want} == {"int", "flt"}:
+            self.promote.add(names[0].id)
+            env[names[0].id] = want = ta = "flt"
         if isinstance(want, tuple) and want[0] == "opt" and not isinstance(tg, ast.Tuple):
             if ta == want[1]:
                 a, ta = f"(some {a})", want             # an Optional variable given a value
@@ -827,14 +1304,20 @@ class Fn:
             return (self.as_dec(a, ta, node) if ta == "int" else a), "dec0"
         if w == "xdec" and ta == "dec":
             return f"(Py.XDec.fin {a})", "xdec"
+        if w == "flt" and ta == "int":
+            return self.as_flt(a, ta, node), "flt"
         fail(node, f"return statements of different types ({w}, {ta})")
 
     def check_ann(self, ann, ty, node):
         if ann is None:
             return
-        want = {"int": "int", "Decimal": "dec", "bool": "bool", "str": "str"}.get(getattr(ann, "id", None))
+        if isinstance(ty, tuple) and ty[0] == "rec" and getattr(ann, "id", None) == ty[1]:
+            return
+        want = {"int": "int", "Decimal": "dec", "bool": "bool", "str": "str", "float": "flt"}.get(getattr(ann, "id", None))
         if want is None:
             fail(node, "unsupported annotation on a local")
+        if {want, ty} == {"int", "flt"} and self.unit.float_mode:
+            return          # float mode: `x: float = 0` and `impactFactor: int = <a float>` — the annotations of this code base do not separate the two
         if want != ty:
             fail(node, f"local annotated {ann.id} but the value is a {ty}")
 
@@ -843,9 +1326,42 @@ class Fn:
             if not all(isinstance(e, ast.Name) for e in target.elts):
                 fail(s, "tuple target with non-names")
             names = [e.id for e in target.elts]
-            a, ta = self.expr(value, env, ind)
+            if isinstance(value, ast.Tuple) and len(value.elts) == len(names) and any(nm in self.promote for nm in names):
+                # float mode: `g, hi, lo = 0, 0, 0` where g also holds floats — that component is the float zero
+                parts, tys = [], []
+                for nm, e in zip(names, value.elts):
+                    a_, t_ = self.expr(e, env, ind)
+                    if t_ == "prop": a_, t_ = self.as_bool(a_, t_, s), "bool"
+                    if nm in self.promote and t_ == "int":
+                        a_, t_ = self.as_flt(a_, t_, s), "flt"
+                    parts.append(a_); tys.append(t_)
+                a, ta = "(" + ", ".join(parts) + ")", ("tuple", tys)
+            else:
+                a, ta = self.expr(value, env, ind)
             if not (isinstance(ta, tuple) and ta[0] == "tuple" and len(ta[1]) == len(names)):
                 fail(s, f"tuple assignment from a {ta}")
+            if "_" in names:
+                # `x, _ = …`: the conventional name of a value that is not used; never a variable of the translation (a later use of `_` fails)
+                if names.count("_") == len(names):
+                    fail(s, "tuple assignment to `_` only")
+                keep = [(nm, t) for nm, t in zip(names, ta[1]) if nm != "_"]
+                if any(nm in env for nm, _ in keep):
+                    for nm, t in keep:
+                        if env.get(nm) != t:
+                            fail(s, f"variable '{nm}' changes type ({env.get(nm)} → {t})")
+                        self.reassigned.add(nm)
+                    # through fresh names (`x'` is no Python identifier), then plain re-assignments
+                    fresh = [f"{nm}'" if nm != "_" else "_" for nm in names]
+                    self.emit(ind, "let (" + ", ".join(fresh) + f") := {a}")
+                    for nm, fr in zip(names, fresh):
+                        if nm != "_":
+                            self.emit(ind, f"{nm} := {fr}")
+                else:
+                    m_ = "mut " if any(nm in self.mut for nm, _ in keep) else ""
+                    self.emit(ind, f"let {m_}(" + ", ".join(names) + f") := {a}")
+                    for nm, t in keep:
+                        env[nm] = t
+                return
             old = [nm in env for nm in names]
             pat = "(" + ", ".join(names) + ")"
             if all(old):
@@ -865,11 +1381,36 @@ class Fn:
             else:
                 fail(s, "tuple assignment mixing new and existing variables")
             return
+        if isinstance(target, ast.Attribute) and isinstance(target.value, ast.Name) and isinstance(env.get(target.value.id), tuple) \
+                and env[target.value.id][0] == "rec":
+            # `r.f = e` on a local dataclass instance: the variable is re-assigned the record with that field replaced (sound only while no other
+            # name holds the same object: check_unaliased_record)
+            rn = target.value.id
+            fields = RECORDS[env[rn][1]]
+            if target.attr not in dict(fields):
+                fail(s, f"{env[rn][1]} has no field {target.attr}")
+            self.check_unaliased_record(rn, s)
+            a, ta = self.expr(value, env, ind)
+            if dict(fields)[target.attr] == "flt" and ta == "int":
+                a, ta = self.as_flt(a, ta, s), "flt"
+            if ta != dict(fields)[target.attr]:
+                fail(s, f"field {target.attr} of {env[rn][1]}: a {ta} where the record table has {dict(fields)[target.attr]}")
+            parts = [a if f == target.attr else rec_proj(rn, fields, f) for f, _ in fields]
+            self.reassigned.add(rn)
+            self.emit(ind, f"{rn} := " + ("(" + ", ".join(parts) + ")" if len(parts) > 1 else parts[0]))
+            return
         if not isinstance(target, ast.Name):
             fail(s, f"assignment to {type(target).__name__}")
         name = target.id
+        if name == "_":
+            fail(s, "assignment to `_`")
         a, ta = self.expr(value, env, ind)
         if ta == "prop": a, ta = self.as_bool(a, ta, s), "bool"
+        if ta == "int" and name in self.promote:
+            a, ta = self.as_flt(a, ta, s), "flt"      # float mode: the int literal 0 in a variable that also holds floats is the float zero
+        if self.probing and name in env and isinstance(ta, str) and isinstance(env[name], str) and {env[name], ta} == {"int", "flt"}:
+            self.promote.add(name)
+            env[name] = ta = "flt"
         self.check_ann(ann, ta, s)
         # peephole: `let t ← act; x := t`  ⇒  `x ← act`
         direct = None
@@ -889,6 +1430,12 @@ class Fn:
                 fail(s, f"variable '{name}' changes type ({env[name]} → {ta})")
             self.reassigned.add(name)
             self.emit(ind, f"{name} ← {direct}" if direct else f"{name} := {a}")
+        elif name in self.hoisted:
+            if self.hoisted[name] != ta:
+                fail(s, f"variable '{name}' is assigned a {ta} here and a {self.hoisted[name]} on another path")
+            self.reassigned.add(name)
+            self.emit(ind, f"{name} ← {direct}" if direct else f"{name} := {a}")
+            env[name] = ta
         else:
             m = "mut " if name in self.mut else ""
             self.emit(ind, f"let {m}{name} ← {direct}" if direct else f"let {m}{name} := {a}")
@@ -901,7 +1448,10 @@ class Fn:
             probe = Fn(self.unit, self.fdef, self.params, self.consts)
             probe.mut = {n.id for n in ast.walk(self.fdef) if isinstance(n, ast.Name)} | {p for p, _ in self.params}
             probe.set_ret = lambda ty, node: probe.ret_types.append(ty)      # pass 1 only collects the return types
+            probe.probing = True
             probe.translate()
+            self.promote = set(probe.promote)
+            self.hoist = dict(probe.hoist)
             self.mut = probe.reassigned | {v for v, _ in (self.unit.cur_state or {}).values()}
             rts = set(map(repr, probe.ret_types))
             if len(rts) > 1:
@@ -910,6 +1460,23 @@ class Fn:
                     self.want_ret = "dec0"     # int on one path, Decimal on another: the number (see README: type `num`)
                 elif kinds and kinds <= {"dec", "xdec"}:
                     self.want_ret = "xdec"
+                elif kinds and kinds == {"int", "flt"}:
+                    self.want_ret = "flt"
+                elif all(isinstance(t, tuple) and t[0] == "tuple" for t in probe.ret_types) and len({len(t[1]) for t in probe.ret_types}) == 1:
+                    # tuples that differ only in components that are an int on one path and a Decimal on another (`return 0, 0` / `return a0, a1`)
+                    uni = []
+                    for comp in zip(*[t[1] for t in probe.ret_types]):
+                        if all(c == comp[0] for c in comp):
+                            uni.append(comp[0])
+                        elif all(isinstance(c, str) for c in comp) and set(comp) <= {"int", "dec", "dec0"}:
+                            uni.append("dec0")
+                        elif all(isinstance(c, str) for c in comp) and set(comp) == {"int", "flt"}:
+                            uni.append("flt")       # float mode: the int literal 0 on one path, a float on another
+                        else:
+                            uni = None
+                            break
+                    if uni is not None:
+                        self.want_ret = ("tuple", uni)
         env = {}
         for p, t in self.params:
             env[p] = t
@@ -918,11 +1485,14 @@ class Fn:
         env_out, term = self.block(self.fdef.body, env, 1)
         if not term:
             st = self.unit.cur_state
-            if st and not self.ret_types:
-                # a method that only updates its fields and falls off the end: the fields on exit
-                names = [v for v, _ in st.values()]
+            fields_ty = None
+            if st:
                 tys = [t for _, t in st.values()]
-                self.set_ret(tys[0] if len(tys) == 1 else ("tuple", tys), self.fdef)
+                fields_ty = tys[0] if len(tys) == 1 else ("tuple", tys)
+            if st and all(rt == fields_ty for rt in self.ret_types):
+                # a method that only updates its fields (bare `return`s at most) and falls off the end: the fields on exit
+                names = [v for v, _ in st.values()]
+                self.set_ret(fields_ty, self.fdef)
                 self.emit(1, "return " + (names[0] if len(names) == 1 else "(" + ", ".join(names) + ")"))
             elif not self.ret_types and not st:
                 self.set_ret("unit", self.fdef)       # a procedure: returns None on every path
@@ -932,7 +1502,30 @@ class Fn:
         return self.lines, self.ret, self.uses_cx, self.uses_pow
 
 
-ANN = {"int": "int", "Decimal": "dec", "bool": "bool", "str": "str"}
+ANN = {"int": "int", "Decimal": "dec", "bool": "bool", "str": "str", "float": "flt"}
+
+# Python identifiers that are reserved words / commands of Lean 4 (or names the generated code itself uses): written `«name»` in the output
+LEAN_RESERVED = set("""end from at fun let do then else if match with open in show have by where structure class instance def theorem lemma example
+namespace section variable universe import export mut return for unless try catch finally macro syntax notation deriving inductive abbrev axiom
+opaque private protected noncomputable partial unsafe calc suffices obtain using this nomatch nofun termination_by decreasing_by attribute
+set_option local scoped prefix infix infixl infixr postfix mutual extends deprecated elab register_simp_attr initialize builtin_initialize
+Type Prop Sort""".split())
+# names the generated code itself uses: a Python variable of that name would capture them
+GENERATED_NAMES = {"cx", "dpow", "fuel", "pure", "throw", "bind", "true", "false", "none", "some", "decide", "truncInt", "Py", "M", "Int", "Rat", "Nat"}
+
+
+def lid(name):
+    return f"«{name}»" if name in LEAN_RESERVED else name
+
+
+class _LeanNames(ast.NodeTransformer):
+    def visit_Name(self, node):
+        node.id = lid(node.id)
+        return node
+
+    def visit_arg(self, node):
+        node.arg = lid(node.arg)
+        return node
 
 
 class _StateRewriter(ast.NodeTransformer):
@@ -948,8 +1541,17 @@ class _StateRewriter(ast.NodeTransformer):
             return ast.copy_location(ast.Name(id=self.state[key][0], ctx=node.ctx), node)
         return self.generic_visit(node)
 
+    def visit_FunctionDef(self, node):
+        if getattr(self, "top", None) is None:
+            self.top = node
+            return self.generic_visit(node)
+        return node            # a function defined inside: translated on its own, with its own table
+
     def visit_Return(self, node):
         names = [ast.Name(id=v, ctx=ast.Load()) for v, _ in self.state.values()]
+        if node.value is None:            # bare `return` of a function that updates fields: the fields on exit
+            node.value = names[0] if len(names) == 1 else ast.Tuple(elts=names, ctx=ast.Load())
+            return node
         if isinstance(node.value, ast.Name) and node.value.id == "self":
             node.value = names[0] if len(names) == 1 else ast.Tuple(elts=names, ctx=ast.Load())
             return node
@@ -962,7 +1564,8 @@ class _StateRewriter(ast.NodeTransformer):
 class Unit:
     """one Python source file (optionally one class of static methods) → one generated Lean file"""
 
-    def __init__(self, module, src, funcs, cls=None, consts=(), prefix="", reads=None, state=None, allow_defaults=False):
+    def __init__(self, module, src, funcs, cls=None, consts=(), prefix="", reads=None, state=None, allow_defaults=False, records=None,
+                 float_mode=False, enums=None, obj_records=None, narrow=False):
         self.module, self.src, self.funcs, self.cls, self.const_names, self.prefix = module, src, funcs, cls, consts, prefix
         # state: {exact source text of an attribute of self: (variable, type)} — an object field the method reads AND writes.  The field becomes
         # a leading parameter (its value on entry) that the body may re-assign; `return self` returns the fields' values on exit, in the
@@ -976,10 +1579,144 @@ class Unit:
         self.reads = reads or {}
         self.auto_consts = {}
         self.cur_reads, self.cur_cls, self.cur_state, self.cur_opts = self.reads, self.cls, self.state, {}
+        # records: {NamedTuple class name: (source file, [(field, type)])} — `Name(field=e, …)` builds the tuple of the fields; the field list is
+        # checked against the class definition in the source on every run (a changed field list makes every use a ShapeError)
+        self.record_specs = records or {}
+        self.records = {}
+        # obj_records: {dataclass name: source file} — objects that are only built and handed to a translated function, which reads their fields
+        # through its read table (the callee's read `params.f` is then the constructor's argument for `f`); field order from the class definition
+        # narrow: flow typing of Optionals (N2) — after `if x is None: return/raise` and `if x is None: x = e`, x is a value.  Opt-in per file: the
+        # translations made before it existed keep the Optional and unwrap it at each use
+        self.narrow = narrow
+        self.obj_record_specs = obj_records or {}
+        self.obj_records = {}
+        # float_mode: the file computes with Python floats: they are values of an abstract number type α (Demeter/PyFloat.lean)
+        self.float_mode = float_mode
+        # enums: {Enum class name: source file}: `Cls.MEMBER` is the int value the class definition gives it
+        self.enum_specs = enums or {}
+        self.enums = {}
+        self.cur_parent, self.nested_alias, self.cur_nested_ok, self.by_src = None, {}, (), {}
         self.method_alias = {}
         self.uses = []           # other units whose translated functions may be called (their generated module is imported)
         self.sigs = {}
         self.const_values = {}
+
+    def check_records(self):
+        for name, (src, fields) in self.record_specs.items():
+            try:
+                with open(os.path.join(REPO, src)) as f:
+                    tree = ast.parse(f.read())
+                cdef = [n for n in tree.body if isinstance(n, ast.ClassDef) and n.name == name]
+                if len(cdef) != 1:
+                    raise ShapeError(f"class {name} not found (once) in {src}")
+                cdef = cdef[0]
+                bases, decos = [ast.unparse(b) for b in cdef.bases], [ast.unparse(d_) for d_ in cdef.decorator_list]
+                is_nt = bases in (["NamedTuple"], ["typing.NamedTuple"]) and not decos
+                is_dc = bases in ([], ["object"]) and decos in (["dataclass"], ["dataclasses.dataclass"])
+                if not (is_nt or is_dc):
+                    raise ShapeError(f"class {name} is neither a plain NamedTuple nor a plain @dataclass")
+                got = []
+                for m in cdef.body:
+                    if isinstance(m, ast.AnnAssign) and isinstance(m.target, ast.Name):
+                        if m.value is not None:
+                            raise ShapeError(f"field {m.target.id} of {name} has a default")
+                        want = dict(fields).get(m.target.id)
+                        an = ANN.get(getattr(m.annotation, "id", None))
+                        if self.float_mode and {an, want} == {"int", "flt"}:
+                            an = want       # this code base annotates float fields `int` here and there; the record table decides
+                        got.append((m.target.id, an))
+                    elif isinstance(m, ast.Expr) and isinstance(m.value, ast.Constant) and isinstance(m.value.value, str):
+                        continue
+                    elif isinstance(m, ast.FunctionDef) and m.name in ("__new__", "__init__", "__post_init__", "__setattr__", "__getattr__",
+                                                                       "__getattribute__", "_make", "_replace"):
+                        raise ShapeError(f"class {name} overrides {m.name}")
+                if got != [(fn_, ft) for fn_, ft in fields]:
+                    raise ShapeError(f"fields of {name} in {src} are {got}, the record table says {fields}")
+                self.records[name] = list(fields)
+                RECORDS[name] = list(fields)
+            except (ShapeError, OSError, SyntaxError) as e:
+                self.records[name] = f"record {name}: {e}"
+                RECORDS.setdefault(name, list(fields))
+        for name, src in self.obj_record_specs.items():
+            try:
+                with open(os.path.join(REPO, src)) as f:
+                    tree = ast.parse(f.read())
+                cdef = [n for n in tree.body if isinstance(n, ast.ClassDef) and n.name == name]
+                if len(cdef) != 1 or [ast.unparse(d_) for d_ in cdef[0].decorator_list] not in (["dataclass"], ["dataclasses.dataclass"]) \
+                        or [ast.unparse(b) for b in cdef[0].bases] not in ([], ["object"]):
+                    raise ShapeError(f"class {name} is not a plain @dataclass (once) in {src}")
+                fields = []
+                for m in cdef[0].body:
+                    if isinstance(m, ast.AnnAssign) and isinstance(m.target, ast.Name):
+                        if m.value is not None:
+                            raise ShapeError(f"field {m.target.id} of {name} has a default")
+                        fields.append(m.target.id)
+                    elif isinstance(m, ast.Expr) and isinstance(m.value, ast.Constant):
+                        continue
+                    else:
+                        raise ShapeError(f"class {name} has a member that is not a plain field ({type(m).__name__})")
+                self.obj_records[name] = fields
+            except (ShapeError, OSError, SyntaxError) as e:
+                self.obj_records[name] = f"object class {name}: {e}"
+        for name, src in self.enum_specs.items():
+            try:
+                with open(os.path.join(REPO, src)) as f:
+                    tree = ast.parse(f.read())
+                cdef = [n for n in tree.body if isinstance(n, ast.ClassDef) and n.name == name]
+                if len(cdef) != 1 or [ast.unparse(b) for b in cdef[0].bases] not in (["enum.Enum"], ["Enum"]) or cdef[0].decorator_list:
+                    raise ShapeError(f"class {name} is not a plain Enum (once) in {src}")
+                vals = {}
+                for m in cdef[0].body:
+                    if isinstance(m, ast.Assign) and len(m.targets) == 1 and isinstance(m.targets[0], ast.Name) and const_value(m.value) is not None:
+                        vals[m.targets[0].id] = const_value(m.value)
+                    elif isinstance(m, ast.Expr) and isinstance(m.value, ast.Constant):
+                        continue
+                    else:
+                        raise ShapeError(f"class {name} has a member that is not `NAME = <int>`")
+                if len(set(vals.values())) != len(vals):
+                    raise ShapeError(f"enum {name} has aliases (two names with one value)")
+                for k, v in vals.items():
+                    self.enums[(name, k)] = v
+            except (ShapeError, OSError, SyntaxError):
+                pass        # its members are then unknown names: every function that mentions one fails loudly
+
+    def check_nested_layout(self, fdef, parent_name):
+        """functions defined inside `fdef` must be direct children of its body, precede every other statement (so each exists whenever one of them
+        or the body runs), be in the signature table, and their names must not be rebound; returns the accepted FunctionDef nodes"""
+        inner = [m for m in ast.walk(fdef) if isinstance(m, (ast.FunctionDef, ast.AsyncFunctionDef, ast.Lambda, ast.ClassDef)) and m is not fdef]
+        if not inner:
+            return ()
+        ok, seen_stmt = [], False
+        for st in fdef.body:
+            if isinstance(st, ast.Expr) and isinstance(st.value, ast.Constant) and isinstance(st.value.value, str):
+                continue
+            if isinstance(st, ast.FunctionDef):
+                if seen_stmt:
+                    fail(st, f"nested function '{st.name}' is defined after other statements of '{parent_name}'")
+                if (parent_name, st.name) not in self.nested_alias:
+                    fail(st, f"nested function '{st.name}' of '{parent_name}' is not in the signature table")
+                if st.decorator_list:
+                    fail(st, f"decorated nested function '{st.name}'")
+                ok.append(st)
+            else:
+                seen_stmt = True
+        names = [st.name for st in ok]
+        if len(set(names)) != len(names):
+            fail(fdef, "a nested function is defined twice")
+        for m in inner:
+            if m not in ok and not any(m is not o and m in ast.walk(o) for o in ok):
+                fail(m, f"{type(m).__name__} nested inside '{parent_name}' other than a function defined at the top of its body")
+        for o in ok:
+            if any(isinstance(m, (ast.FunctionDef, ast.AsyncFunctionDef, ast.Lambda, ast.ClassDef)) and m is not o for m in ast.walk(o)):
+                fail(o, f"nested function '{o.name}' itself defines functions")
+        for m in ast.walk(fdef):
+            if isinstance(m, ast.Name) and m.id in names and not isinstance(m.ctx, ast.Load):
+                fail(m, f"the name of the nested function '{m.id}' is re-assigned")
+            if isinstance(m, (ast.Global, ast.Nonlocal)):
+                fail(m, "global / nonlocal declaration")
+            if isinstance(m, ast.arg) and m.arg in names:
+                fail(fdef, f"a parameter is named like the nested function '{m.arg}'")
+        return tuple(ok)
 
     def find(self, tree, name, cls=None):
         body = tree.body
@@ -1078,18 +1815,49 @@ class Unit:
         # an entry of `funcs` is (name, {param: type}) or (name, {param: type}, opts): opts may give this function its own class ("cls"),
         # read table ("reads"), fields ("state"), generated name ("as") and switches ("return_in_for")
         entries = [(f[0], f[1], (f[2] if len(f) > 2 else {})) for f in self.funcs]
-        self.method_alias = {(o.get("cls", self.cls), n): o.get("as", n) for n, pt, o in entries}
+        self.method_alias = {(o.get("cls", self.cls), n): o.get("as", n) for n, pt, o in entries if not o.get("nested_in")}
+        # nested_in: the entry is a function defined inside another one (a closure that reaches the enclosing function's objects through the same read /
+        # state tables); by_src: the translations of one source function under different argument types (the call picks the one that fits)
+        self.nested_alias = {(o["nested_in"], n): o.get("as", n) for n, pt, o in entries if o.get("nested_in")}
+        for u in self.uses:
+            for k, v in u.by_src.items():
+                self.by_src.setdefault(k, [])
+                self.by_src[k] += [x for x in v if x not in self.by_src[k]]
+        for n, pt, o in entries:
+            if not o.get("nested_in"):
+                self.by_src.setdefault(n, []).append(o.get("as", n))
+                c = o.get("cls", self.cls)
+                if c:
+                    self.by_src.setdefault(f"{c}.{n}", []).append(o.get("as", n))      # `Cls.f(…)`: a static method of a class of this or a used file
+        self.check_records()
+        for u in self.uses:
+            for k, v in u.records.items():
+                self.records.setdefault(k, v)
+            for k, v in u.enums.items():
+                self.enums.setdefault(k, v)
+            for k, v in u.obj_records.items():
+                self.obj_records.setdefault(k, v)
         self.funcs = [(o.get("as", n), pt) for n, pt, o in entries]
         for (n, pt, o) in entries:
             key = o.get("as", n)
-            self.sigs[key] = Sig(key, self.prefix + key, list(pt.items()))
+            self.sigs[key] = Sig(key, self.prefix + key, [(lid(pn), pty) for pn, pty in pt.items()])
         consts = {}
         for src_name, ptypes, opts in entries:
             name = opts.get("as", src_name)
             sig = self.sigs[name]
             self.cur_cls, self.cur_reads, self.cur_state, self.cur_opts = opts.get("cls", self.cls), opts.get("reads", self.reads), opts.get("state", self.state), opts
+            self.cur_parent, self.cur_nested_ok = opts.get("nested_in") or src_name, ()
             try:
-                fdef, body = self.find(tree, src_name, self.cur_cls)
+                if opts.get("nested_in"):
+                    pdef, body = self.find(tree, opts["nested_in"], self.cur_cls)
+                    inner = [d for d in self.check_nested_layout(pdef, opts["nested_in"]) if d.name == src_name]
+                    if not inner:
+                        raise ShapeError(f"no function '{src_name}' is defined at the top of '{opts['nested_in']}'")
+                    fdef = inner[0]
+                else:
+                    fdef, body = self.find(tree, src_name, self.cur_cls)
+                    self.cur_nested_ok = self.check_nested_layout(fdef, src_name)
+                orig_fdef = fdef
                 if not consts and self.const_names:
                     consts = self.read_consts(body)
                     consts.update(EXTERNAL_CONSTS)
@@ -1102,11 +1870,29 @@ class Unit:
                 argnames = [x.arg for x in a.args]
                 if argnames and argnames[0] == "self" and self.cur_cls:
                     argnames = argnames[1:]          # a method: `self` is reachable only through Unit.reads
+                if opts.get("nested_in") and len(argnames) == len(ptypes) and argnames != list(ptypes):
+                    # a function defined inside another one has no outside callers and the translated calls are positional: its parameters are
+                    # matched by position, so renaming one is not a change
+                    ptypes = dict(zip(argnames, ptypes.values()))
+                    sig.params = [(lid(pn), pty) for pn, pty in ptypes.items()]
                 if argnames != list(ptypes):
                     fail(fdef, f"parameters {[x.arg for x in a.args]} differ from the translator's signature table {list(ptypes)}")
+                # a read / field of the tables becomes a binder of that name: a Python variable of the same name would capture it
+                table_names = {nm for nm, _ in self.cur_reads.values()} | {v for v, _ in self.cur_state.values()}
+                same_value = set()       # `x = <the read that the table calls x>`: the variable holds the input itself, nothing is captured
+                for m in ast.walk(orig_fdef):
+                    if isinstance(m, ast.Assign) and len(m.targets) == 1 and isinstance(m.targets[0], ast.Name) \
+                            and self.cur_reads.get(ast.unparse(m.value), (None,))[0] == m.targets[0].id:
+                        same_value.add(m.targets[0])
+                for m in ast.walk(orig_fdef):
+                    nm = m.id if isinstance(m, ast.Name) and not isinstance(m.ctx, ast.Load) else (m.arg if isinstance(m, ast.arg) else None)
+                    if nm is not None and nm in table_names and m not in same_value:
+                        fail(m, f"the variable '{nm}' has the name the read / state table gives to an input of this function")
                 for x in a.args:
                     an = getattr(x.annotation, "id", None)
-                    if x.arg in ptypes and an in ANN and ANN[an] != ptypes[x.arg]:
+                    if self.float_mode and an in ANN and {ANN[an], ptypes.get(x.arg)} == {"int", "flt"}:
+                        continue        # float mode: this code base annotates float parameters `int` here and there (impactFactor: int); the table decides
+                    if x.arg in ptypes and an in ANN and ANN[an] != ptypes[x.arg] and x.arg not in opts.get("override_ann", ()):
                         fail(fdef, f"parameter {x.arg} is annotated {an}, the signature table says {ptypes[x.arg]}")
                 for d in fdef.decorator_list:
                     if getattr(d, "id", None) != "staticmethod":
@@ -1114,14 +1900,26 @@ class Unit:
                 for x in a.args:
                     if x.arg in ptypes and ptypes[x.arg] in ("time", "delta") and getattr(x.annotation, "id", None) not in (None, "datetime", "timedelta"):
                         fail(fdef, f"parameter {x.arg} is annotated {getattr(x.annotation, 'id', None)}, the signature table says {ptypes[x.arg]}")
+                for m in ast.walk(fdef):
+                    nm = m.id if isinstance(m, ast.Name) and not isinstance(m.ctx, ast.Load) else (m.arg if isinstance(m, ast.arg) else None)
+                    if nm is not None and (nm in GENERATED_NAMES or re.fullmatch(r"t\d+", nm)):
+                        fail(m, f"the variable name '{nm}' is used by the generated code itself")
+                if any(isinstance(m, ast.Name) and m.id in LEAN_RESERVED for m in ast.walk(fdef)) or any(x.arg in LEAN_RESERVED for x in a.args):
+                    fdef = _LeanNames().visit(copy.deepcopy(fdef))      # `end`, `from`, … are fine in Python and reserved in Lean
                 fn = Fn(self, fdef, list(self.cur_state.values()) + sig.params, consts or dict(EXTERNAL_CONSTS))
                 lines, ret, uses_cx, uses_pow = fn.translate()
                 sig.ret, sig.uses_cx, sig.uses_pow = ret, uses_cx, uses_pow
                 sig.reads = [(nm, ty) for nm, ty in self.cur_reads.values() if nm in fn.used_reads] + list(self.cur_state.values())
+                sig.read_keys = [(key, nm, ty) for key, (nm, ty) in self.cur_reads.items() if nm in fn.used_reads]
                 sig.state = dict(self.cur_state)
-                binders = ("(cx : NumCtx) " if uses_cx else "") + ("(dpow : Rat → Nat → Rat) " if uses_pow else "") + ("(fuel : Nat) " if fn.uses_fuel else "") \
+                sig.uses_fuel = fn.uses_fuel
+                own = [m for m in ast.walk(orig_fdef) if isinstance(m, ast.Return)
+                       and not any(m in ast.walk(d) for d in self.cur_nested_ok)]
+                sig.state_only = bool(self.cur_state) and all(m.value is None or (isinstance(m.value, ast.Name) and m.value.id == "self") for m in own)
+                sig.uses_o = fn.uses_o
+                binders = ("(o : FloatOps α) " if fn.uses_o else "") + ("(cx : NumCtx) " if uses_cx else "") + ("(dpow : Rat → Nat → Rat) " if uses_pow else "") + ("(fuel : Nat) " if fn.uses_fuel else "") \
                     + "".join(f"({nm} : {lean_ty(ty)}) " for nm, ty in sig.reads) + " ".join(f"({p} : {lean_ty(t)})" for p, t in sig.params if t != "obj")
-                head = f"/-- `{self.src}` line {fdef.lineno}: `{(self.cur_cls + '.') if self.cur_cls else ''}{src_name}` -/\ndef {sig.lean_name} {binders} : M ({lean_ty(ret)}) := do"
+                head = f"/-- `{self.src}` line {fdef.lineno}: `{(self.cur_cls + '.') if self.cur_cls else ''}{(opts['nested_in'] + '.') if opts.get('nested_in') else ''}{src_name}` -/\ndef {sig.lean_name} {binders} : M ({lean_ty(ret)}) := do"
                 defs.append(head + "\n" + "\n".join(lines))
             except ShapeError as e:
                 sig.ret = None
@@ -1132,16 +1930,32 @@ class Unit:
                 f"-- translated: {', '.join(ok) if ok else '(none)'}"]
         if failures:
             head.append(f"-- NOT translated: {', '.join(n for n, _ in failures)}")
-        imports = ["import Demeter.PyPrelude"] + [f"import Demeter.Gen.Py{u.module}" for u in self.uses]
-        text = "\n".join(head + imports + ["namespace Demeter.Py", "set_option linter.unusedVariables false", ""]) \
-            + "\n\n".join(defs) + "\n\nend Demeter.Py\n"
+        imports = ["import Demeter.PyFloat" if self.float_mode else "import Demeter.PyPrelude"] + [f"import Demeter.Gen.Py{u.module}" for u in self.uses]
+        opening = ["namespace Demeter.Py", "set_option linter.unusedVariables false"]
+        if self.float_mode:
+            opening += ["section", "variable {α : Type} [Add α] [Sub α] [Mul α] [Div α] [Neg α] [LT α] [LE α] [OfNat α 0] [DecidableLT α] [DecidableLE α]"]
+        text = "\n".join(head + imports + opening + [""]) \
+            + "\n\n".join(defs) + ("\n\nend" if self.float_mode else "") + "\n\nend Demeter.Py\n"
         return text, failures
 
 
-EXTERNAL_CONSTS = {
-    # demeter/_typing.py: DECIMAL_0 = Decimal(0)
-    "DECIMAL_0": ("(0 : Rat)", "dec"),
-}
+def _external_consts():
+    """demeter/_typing.py: `DECIMAL_0 = Decimal(0)`, `DECIMAL_1 = Decimal(1)` — read from the source (module-level, assigned once); a name that is
+    not found there is simply unknown to the functions that use it"""
+    out = {}
+    try:
+        with open(os.path.join(REPO, "demeter", "_typing.py")) as f:
+            tree = ast.parse(f.read())
+        lits = Unit("_", "demeter/_typing.py", []).literal_constants(tree)
+    except (OSError, SyntaxError):
+        return out
+    for name in ("DECIMAL_0", "DECIMAL_1"):
+        if name in lits and lits[name][1] == "dec":
+            out[name] = lits[name]
+    return out
+
+
+EXTERNAL_CONSTS = _external_consts()
 
 I, D, B, S, T, F = "int", "dec", "bool", "str", "tok", "frame"
 DD = ("dict", "dec")
@@ -1157,6 +1971,12 @@ UNITS = [
         ("get_amount0", {"sqrtA": I, "sqrtB": I, "liquidity": I, "decimals": I}),
         ("get_amount1", {"sqrtA": I, "sqrtB": I, "liquidity": I, "decimals": I}),
         ("get_amounts", {"sqrt_price_x96": I, "tickA": I, "tickB": I, "liquidity": I, "decimal0": I, "decimal1": I}),
+        # the same three functions read with a Decimal liquidity (annotated int; a position's liquidity is a Decimal after a partial removal through
+        # the public API, whose decorator converts the int argument): the products with it round through the context
+        ("get_amount0", {"sqrtA": I, "sqrtB": I, "liquidity": D, "decimals": I}, {"as": "get_amount0_dliq", "override_ann": ("liquidity",)}),
+        ("get_amount1", {"sqrtA": I, "sqrtB": I, "liquidity": D, "decimals": I}, {"as": "get_amount1_dliq", "override_ann": ("liquidity",)}),
+        ("get_amounts", {"sqrt_price_x96": I, "tickA": I, "tickB": I, "liquidity": D, "decimal0": I, "decimal1": I},
+         {"as": "get_amounts_dliq", "override_ann": ("liquidity",)}),
     ]),
 ]
 
@@ -1206,12 +2026,127 @@ UNISWAP_HELPER = Unit("UniswapHelper", "demeter/uniswap/helper.py", [
     ("_to_x96", {"sqrt_price": D}),
     ("tick_to_sqrt_price_x96", {"tick": I}),
     ("from_atomic_unit", {"atomic_unit_amount": I, "decimal": I}),
+    # the same function read with a Decimal amount: the annotation says int, but the pool data loader (`load_uni_v3_data`: converters `to_decimal`)
+    # fills inAmount0/1 with Decimals, which is what update_fee passes; `int(x)` then truncates.  `override_ann` lifts the annotation check for it
+    ("from_atomic_unit", {"atomic_unit_amount": D, "decimal": I}, {"as": "from_atomic_unit_dec", "override_ann": ("atomic_unit_amount",)}),
     ("get_swap_value", {"swap_from_token_val": D, "swap_to_token_val": D, "fee_rate": D, "final_ratio": D}),
     ("get_swap_value_with_part_balance_used", {"swap_from_token_val": D, "swap_to_token_val": D, "total_val_after": D,
                                                "fee_rate": D, "final_ratio": D}),
 ], consts=("Q96",), prefix="uni_")
 UNISWAP_HELPER.uses = [UNITS[0]]
 UNITS.append(UNISWAP_HELPER)
+
+
+_UC_POOL = {"pool.token0.decimal": ("decimal0", I), "pool.token1.decimal": ("decimal1", I)}
+_UC_FEE_READS = {"position.liquidity": ("liquidity", I), "state.currentLiquidity": ("current_liquidity", D),
+                 "state.inAmount0": ("in_amount0", D), "state.inAmount1": ("in_amount1", D),
+                 "pool.token0.decimal": ("decimal0", I), "pool.token1.decimal": ("decimal1", I), "pool.fee_rate": ("fee_rate", D),
+                 "pos.lower_tick": ("lower_tick", I), "pos.upper_tick": ("upper_tick", I), "state.closeTick": ("close_tick", I)}
+_UC_FEE_STATE = {"position.pending_amount0": ("pending_amount0", D), "position.pending_amount1": ("pending_amount1", D)}
+_UC_FEE_OBJS = {"last_tick": I, "pool": "obj", "pos": "obj", "position": "obj", "state": "obj"}
+UNISWAP_CORE = Unit("UniswapCore", "demeter/uniswap/core.py", [
+    ("new_position", {"pool": "obj", "token0_amount": D, "token1_amount": D, "lower_tick": I, "upper_tick": I, "sqrt_price_x96": I}, {"reads": _UC_POOL}),
+    ("get_token_amounts", {"pool": "obj", "pos": "obj", "sqrt_price_x96": I, "liquidity": I},
+     {"reads": dict(_UC_POOL, **{"pos.lower_tick": ("lower_tick", I), "pos.upper_tick": ("upper_tick", I)})}),
+    ("close_position", {"pool": "obj", "position_info": "obj", "liquidity": I, "sqrt_price_x96": I},
+     {"reads": dict(_UC_POOL, **{"position_info.lower_tick": ("lower_tick", I), "position_info.upper_tick": ("upper_tick", I)})}),
+    ("get_token_amounts", {"pool": "obj", "pos": "obj", "sqrt_price_x96": I, "liquidity": D},
+     {"as": "get_token_amounts_dliq", "reads": dict(_UC_POOL, **{"pos.lower_tick": ("lower_tick", I), "pos.upper_tick": ("upper_tick", I)})}),
+    ("close_position", {"pool": "obj", "position_info": "obj", "liquidity": D, "sqrt_price_x96": I},
+     {"as": "close_position_dliq", "reads": dict(_UC_POOL, **{"position_info.lower_tick": ("lower_tick", I), "position_info.upper_tick": ("upper_tick", I)})}),
+    # update_fee and the two functions defined inside it (closures over pool / pos / position / state: same read and state tables)
+    ("in_range", {"tick": I}, {"nested_in": "update_fee", "as": "update_fee_in_range", "reads": _UC_FEE_READS}),
+    ("calc_amounts", {"weight": D}, {"nested_in": "update_fee", "as": "update_fee_calc_amounts", "reads": _UC_FEE_READS, "state": _UC_FEE_STATE}),
+    ("update_fee", dict(_UC_FEE_OBJS), {"reads": _UC_FEE_READS, "state": _UC_FEE_STATE}),
+], cls="V3CoreLib", prefix="unicore_",
+    records={"PositionInfo": ("demeter/uniswap/_typing.py", [("lower_tick", I), ("upper_tick", I)])})
+UNISWAP_CORE.uses = [UNITS[0], UNISWAP_HELPER]
+UNITS.append(UNISWAP_CORE)
+
+
+# ---- GMX v2 (float mode): demeter/gmx/gmx_v2/*.py
+FL = "flt"
+_G2 = "demeter/gmx/gmx_v2/"
+_G2_RECORDS = {
+    "PoolParams": (_G2 + "SwapPricingUtils.py", [("poolUsdForTokenA", FL), ("poolUsdForTokenB", FL), ("nextPoolUsdForTokenA", FL), ("nextPoolUsdForTokenB", FL)]),
+    "SwapFees": (_G2 + "SwapPricingUtils.py", [("amountAfterFees", FL), ("totalFee", FL)]),
+    "Amounts": (_G2 + "SwapPricingUtils.py", [("long", FL), ("short", FL)]),
+    "LPResult": (_G2 + "_typing.py", [("long_amount", FL), ("short_amount", FL), ("total_usd", FL), ("gm_amount", FL), ("gm_usd", FL),
+                                      ("long_fee", FL), ("short_fee", FL), ("fee_usd", FL), ("price_impact_usd", FL)]),
+}
+_G2_CFG = {"pool_config.swapImpactFactorPositive": ("impact_factor_positive", FL), "pool_config.swapImpactFactorNegative": ("impact_factor_negative", FL),
+           "pool_config.swapImpactExponentFactor": ("impact_exponent", FL),
+           "pool_config.depositFeeFactorForPositiveImpact": ("deposit_fee_positive", FL), "pool_config.depositFeeFactorForNegativeImpact": ("deposit_fee_negative", FL),
+           "pool_config.withdrawFeeFactorForPositiveImpact": ("withdraw_fee_positive", FL), "pool_config.withdrawFeeFactorForNegativeImpact": ("withdraw_fee_negative", FL),
+           "pool_config.longDecimal": ("long_decimal", I), "pool_config.shortDecimal": ("short_decimal", I)}
+_G2_STATUS = {"pool_status.longAmount": ("long_amount_pool", FL), "pool_status.shortAmount": ("short_amount_pool", FL),
+              "pool_status.virtualSwapInventoryLong": ("virtual_long", ("opt", FL)), "pool_status.virtualSwapInventoryShort": ("virtual_short", ("opt", FL)),
+              "pool_status.poolValue": ("pool_value", FL), "pool_status.marketTokensSupply": ("market_tokens_supply", FL),
+              "pool_status.impactPoolAmount": ("impact_pool_amount", FL), "pool_status.longPrice": ("long_price", FL), "pool_status.shortPrice": ("short_price", FL)}
+GMX2_UTILS = Unit("Gmx2Utils", _G2 + "utils.py", [
+    ("sumReturnUint256", {"a": FL, "b": FL}, {"cls": "Calc"}),
+    ("diff", {"a": FL, "b": FL}, {"cls": "Calc"}),
+    ("toSigned", {"a": FL, "isPositive": B}, {"cls": "Calc"}),
+    ("applyImpactFactor", {"diffUsd": FL, "impactFactor": FL, "impactExponentFactor": FL}, {"cls": "PricingUtils"}),
+    ("getPriceImpactUsdForSameSideRebalance", {"initialDiffUsd": FL, "nextDiffUsd": FL, "impactFactor": FL, "impactExponentFactor": FL}, {"cls": "PricingUtils"}),
+    ("getPriceImpactUsdForCrossoverRebalance", {"initialDiffUsd": FL, "nextDiffUsd": FL, "positiveImpactFactor": FL, "negativeImpactFactor": FL,
+                                                "impactExponentFactor": FL}, {"cls": "PricingUtils"}),
+    ("get_gm_price", {"pool_value": FL, "supply_amount": FL}, {"cls": "PricingUtils"}),
+    ("applyFactor", {"value": FL, "factor": FL}, {"cls": "Precision"}),
+], prefix="gmx2_", float_mode=True)
+UNITS.append(GMX2_UTILS)
+GMX2_MARKET_UTILS = Unit("Gmx2MarketUtils", _G2 + "MarketUtils.py", [
+    ("getAdjustedSwapImpactFactors", {"pool_config": "obj"}, {"reads": _G2_CFG}),
+    ("getAdjustedSwapImpactFactor", {"pool_config": "obj", "isPositive": B}, {"reads": _G2_CFG}),
+    ("getSwapImpactAmountWithCap", {"tokenPrice": FL, "priceImpactUsd": FL, "impactPoolAmount": FL}),
+    ("usdToMarketTokenAmount", {"_usd_value": FL, "_pool_value": FL, "_supply": FL}),
+    ("marketTokenAmountToUsd", {"marketTokenAmount": FL, "poolValue": FL, "supply": FL}),
+    ("getTokenAmountsFromGM", {"pool_status": "obj", "marketTokenAmount": FL}, {"reads": _G2_STATUS}),
+    ("get_values", {"amount": FL, "price": FL, "decimal": I}, {"override_ann": ("decimal",)}),
+], cls="MarketUtils", prefix="gmx2_", float_mode=True)
+GMX2_MARKET_UTILS.uses = [GMX2_UTILS]
+UNITS.append(GMX2_MARKET_UTILS)
+
+
+_G2_PARAMS = {"params.priceForTokenA": ("price_a", FL), "params.priceForTokenB": ("price_b", FL),
+              "params.usdDeltaForTokenA": ("usd_delta_a", FL), "params.usdDeltaForTokenB": ("usd_delta_b", FL),
+              "params.includeVirtualInventoryImpact": ("include_virtual", B), "params.tokenA_is_long_token": ("token_a_is_long", B)}
+_G2_PARAMS_CFG = {"params." + k: v for k, v in _G2_CFG.items()}
+GMX2_SWAP = Unit("Gmx2SwapPricingUtils", _G2 + "SwapPricingUtils.py", [
+    ("getNextPoolAmountsParams", {"params": "obj", "poolAmountForTokenA": FL, "poolAmountForTokenB": FL}, {"reads": _G2_PARAMS}),
+    ("getNextPoolAmountsUsd", {"params": "obj", "amounts": ("rec", "Amounts")}, {"reads": _G2_PARAMS}),
+    ("_getPriceImpactUsd", {"pool_config": "obj", "pool_params": ("rec", "PoolParams")}, {"reads": _G2_CFG}),
+    ("getPriceImpactUsd", {"params": "obj", "pool_status": "obj"}, {"reads": dict(_G2_PARAMS, **_G2_PARAMS_CFG, **_G2_STATUS)}),
+    ("getSwapFees", {"pool_config": "obj", "amount": FL, "forPositiveImpact": B, "swapPricingType": I}, {"reads": _G2_CFG}),
+], cls="SwapPriceUtils", prefix="gmx2_", float_mode=True, records=_G2_RECORDS, enums={"SwapPricingType": _G2 + "SwapPricingUtils.py"},
+    obj_records={"GetPriceImpactUsdParams": _G2 + "SwapPricingUtils.py"}, narrow=True)
+GMX2_SWAP.uses = [GMX2_UTILS, GMX2_MARKET_UTILS]
+UNITS.append(GMX2_SWAP)
+
+
+_G2_BOTH = dict(_G2_CFG, **_G2_STATUS)
+GMX2_DEPOSIT = Unit("Gmx2ExecuteDepositUtils", _G2 + "ExecuteDepositUtils.py", [
+    ("calc_token_amount", {"pool_config": "obj", "pool_status": "obj", "tokenInPrice": FL, "tokenOutPrice": FL, "amount": FL, "priceImpactUsd": FL,
+                           "impactPoolAmount": ("opt", FL)}, {"reads": _G2_BOTH}),
+    ("get_mint_amount", {"pool_config": "obj", "pool_status": "obj", "long_amount": FL, "short_amount": FL}, {"reads": _G2_BOTH}),
+], cls="ExecuteDepositUtils", prefix="gmx2_", float_mode=True, records=_G2_RECORDS, enums={"SwapPricingType": _G2 + "SwapPricingUtils.py"},
+    obj_records={"GetPriceImpactUsdParams": _G2 + "SwapPricingUtils.py"}, narrow=True, allow_defaults=True)
+GMX2_DEPOSIT.uses = [GMX2_UTILS, GMX2_MARKET_UTILS, GMX2_SWAP]
+UNITS.append(GMX2_DEPOSIT)
+GMX2_WITHDRAW = Unit("Gmx2ExecuteWithdrawUtils", _G2 + "ExecuteWithdrawUtils.py", [
+    ("getOutputAmount", {"pool_config": "obj", "pool_status": "obj", "marketTokenAmount": FL}, {"reads": _G2_BOTH}),
+], cls="ExecuteWithdrawUtils", prefix="gmx2_", float_mode=True, records=_G2_RECORDS, enums={"SwapPricingType": _G2 + "SwapPricingUtils.py"},
+    narrow=True)
+GMX2_WITHDRAW.uses = [GMX2_UTILS, GMX2_MARKET_UTILS, GMX2_SWAP]
+UNITS.append(GMX2_WITHDRAW)
+
+
+# ---- result/metrics/calculator.py (float mode): the functions that compute with Python floats only (a list of floats, no numpy / pandas object)
+METRICS = Unit("MetricsCalculator", "demeter/result/metrics/calculator.py", [
+    ("return_value", {"init_equity": FL, "final_equity": FL}),
+    ("_withdraw_with_high_low", {"arr": ("list", FL)}, {"as": "withdraw_with_high_low"}),
+], prefix="metrics_", float_mode=True)
+UNITS.append(METRICS)
 
 
 BROKER_TYPING = Unit("BrokerTyping", "demeter/broker/_typing.py", [
@@ -1270,6 +2205,7 @@ def _blocks(text):
     head, blocks = parts[0], {}
     for b in parts[1:]:
         b = re.sub(r"(?m)^end Demeter\.Py\s*\Z", "", b)
+        b = re.sub(r"(?m)^end\s*\Z", "", b)          # the `section` of a float-mode file
         m = re.search(r"(?m)^(?:partial )?def (\S+)", b)
         if m:
             blocks[m.group(1)] = b.rstrip("\n") + "\n\n"
@@ -1290,7 +2226,7 @@ def _merge_with_baseline(module, text):
     for name, b in nblocks.items():
         if name not in bblocks:
             out += b
-    return out.rstrip("\n") + "\n\nend Demeter.Py\n"
+    return out.rstrip("\n") + ("\n\nend" if "\nsection\n" in bhead else "") + "\n\nend Demeter.Py\n"
 
 
 def run(write=True, only=None):
